@@ -1,2 +1,390 @@
-import AlgoVerif.Common
-/-! # C11 — property theorems (none yet) -/
+import AlgoVerif.Proofs.C11Resolve
+import AlgoVerif.Proofs.C11NoPanic
+import AlgoVerif.Proofs.C11Demo
+import AlgoVerif.Proofs.C11Valid
+import AlgoVerif.Proofs.C11LalrValid
+/-!
+# C11 — property theorems
+
+Model: `Model/C11Core.lean` (driver, conflict resolution), `Model/C11.lean` (the three constructions);
+Spec: `Spec/C11.lean` (rightmost derivations, the table validator, the declared precedence rule).
+-/
+open AlgoVerif AlgoVerif.Gram AlgoVerif.C11 AlgoVerif.C11.Spec AlgoVerif.C11.Sound AlgoVerif.C11.NoPanic AlgoVerif.C11.Demo AlgoVerif.C11.Built
+
+/-! ## 0. facts regenerated from the source on every run (`bin/pre-C11`) that the Model relies on -/
+
+/-- the enumerations are declared in the order the Model's constructors assume (`Action`: shift, reduce, accept;
+`Assoc`: none, left, right), four primed suffixes are tried for the new start symbol, and the endmarker is one
+character outside ASCII (so it sorts after every ASCII terminal name and `%q` never applies to it) -/
+theorem C11_generated_facts :
+    AlgoVerif.Generated.C11.lr_ActionType_names = ["SHIFT", "REDUCE", "ACCEPT", "ERROR"] ∧
+    AlgoVerif.Generated.C11.lr_ActionType_base = 1 ∧
+    AlgoVerif.Generated.C11.lr_Associativity_names = ["NONE", "LEFT", "RIGHT"] ∧
+    primeSuffixes.length = 4 ∧
+    endmarker.toList.length = 1 ∧ endmarker.toList.all (fun c => c.toNat > 127) = true := by decide
+
+/-! ## 1. the decision logic of `PrecedenceLevels.Compare` / `resolveConflict`, for all level lists -/
+
+/-- `Precedence(h)` is the *first* level that lists `h` (so "listed earlier" is well defined) … -/
+theorem C11_precedence_first_level (ls : List Level) (h : Handle) (i : Nat) (as : Assoc) :
+    precedenceOf ls h = some (i, as) ↔
+      ∃ l, ls[i]? = some l ∧ h ∈ l.handles ∧ l.assoc = as ∧ ∀ k, k < i → ∀ m, ls[k]? = some m → h ∉ m.handles := by
+  induction ls generalizing i with
+  | nil => simp [precedenceOf]
+  | cons l ls ih =>
+    unfold precedenceOf
+    by_cases hm : h ∈ l.handles
+    · simp only [hm, if_true, Option.some.injEq, Prod.mk.injEq]
+      constructor
+      · rintro ⟨rfl, rfl⟩
+        exact ⟨l, by simp, hm, rfl, by intro k hk; omega⟩
+      · rintro ⟨l', hl', _, has, hfirst⟩
+        cases i with
+        | zero => simp at hl'; subst hl'; exact ⟨rfl, has⟩
+        | succ i => exact absurd hm (hfirst 0 (by omega) l (by simp))
+    · simp only [hm, if_false]
+      cases hp : precedenceOf ls h with
+      | none =>
+        simp only [false_iff, reduceCtorEq]
+        rintro ⟨l', hl', hmem, has, hfirst⟩
+        cases i with
+        | zero => simp at hl'; subst hl'; exact hm hmem
+        | succ i =>
+          have := (ih i).mpr ⟨l', by simpa using hl', hmem, has, fun k hk m hkm => hfirst (k + 1) (by omega) m (by simpa using hkm)⟩
+          rw [hp] at this; cases this
+      | some r =>
+        obtain ⟨i', as'⟩ := r
+        simp only [Option.some.injEq, Prod.mk.injEq]
+        constructor
+        · rintro ⟨rfl, rfl⟩
+          obtain ⟨l', hl', hmem, has, hfirst⟩ := (ih i').mp hp
+          refine ⟨l', by simpa using hl', hmem, has, ?_⟩
+          intro k hk m hkm
+          cases k with
+          | zero => simp at hkm; subst hkm; exact hm
+          | succ k => exact hfirst k (by omega) m (by simpa using hkm)
+        · rintro ⟨l', hl', hmem, has, hfirst⟩
+          cases i with
+          | zero => simp at hl'; subst hl'; exact absurd hmem hm
+          | succ i =>
+            have := (ih i).mpr ⟨l', by simpa using hl', hmem, has, fun k hk m hkm => hfirst (k + 1) (by omega) m (by simpa using hkm)⟩
+            rw [hp] at this
+            simp only [Option.some.injEq, Prod.mk.injEq] at this
+            exact ⟨by omega, this.2⟩
+
+/-- … and it is `none` exactly for an unlisted handle. -/
+theorem C11_precedence_unlisted (ls : List Level) (h : Handle) :
+    precedenceOf ls h = none ↔ ∀ l ∈ ls, h ∉ l.handles := by
+  induction ls with
+  | nil => simp [precedenceOf]
+  | cons l ls ih =>
+    unfold precedenceOf
+    by_cases hm : h ∈ l.handles
+    · simp [hm]
+    · cases hp : precedenceOf ls h with
+      | none => simp [hm, hp] at ih ⊢; exact ih
+      | some r => simp [hm, hp] at ih ⊢; exact ih
+
+/-- `C11_compare_rule`: for ALL level lists, productions, terminals and shift targets, `Compare` between the
+reduce by `p` and the shift of `a` says: reduce wins (`1`) iff the declared rule says reduce, shift wins (`-1`) iff it
+says shift, and it returns an error — never a choice — when the rule gives none (NONE, unlisted handle). -/
+theorem C11_compare_rule (ls : List Level) (p : Pr) (a : String) (j : Int) :
+    compareAH ls (.reduce p, handleOfProd p) (.shift j, .term a) =
+      (match declared ls p a with
+       | .reduce => some 1
+       | .shift => some (-1)
+       | .error => none) := by
+  unfold compareAH declared
+  have hne : ((Action.reduce p, handleOfProd p) = (Action.shift j, Handle.term a)) = False := by simp
+  simp only [hne, if_false, isReduce, isShift, Bool.and_self]
+  cases precedenceOf ls (handleOfProd p) with
+  | none => simp
+  | some r =>
+    obtain ⟨i, as⟩ := r
+    cases precedenceOf ls (Handle.term a) with
+    | none => simp
+    | some r' =>
+      obtain ⟨k, as'⟩ := r'
+      simp only
+      by_cases h1 : i < k
+      · simp [h1]
+      · by_cases h2 : k < i
+        · simp [h1, h2]
+        · simp only [h1, h2, if_false]
+          cases as <;> simp
+
+/-- two handles of the same level have that level's associativity -/
+theorem C11_same_level_same_assoc (ls : List Level) (h1 h2 : Handle) (i : Nat) (a1 a2 : Assoc)
+    (e1 : precedenceOf ls h1 = some (i, a1)) (e2 : precedenceOf ls h2 = some (i, a2)) : a1 = a2 := by
+  obtain ⟨l1, hl1, _, ha1, _⟩ := (C11_precedence_first_level ls h1 i a1).mp e1
+  obtain ⟨l2, hl2, _, ha2, _⟩ := (C11_precedence_first_level ls h2 i a2).mp e2
+  rw [hl1] at hl2
+  simp only [Option.some.injEq] at hl2
+  subst hl2
+  rw [← ha1, ← ha2]
+
+/-- the same rule with the arguments swapped (`Compare` is antisymmetric on a shift/reduce pair) -/
+theorem C11_compare_rule_swapped (ls : List Level) (p : Pr) (a : String) (j : Int) :
+    compareAH ls (.shift j, .term a) (.reduce p, handleOfProd p) =
+      (match declared ls p a with
+       | .reduce => some (-1)
+       | .shift => some 1
+       | .error => none) := by
+  unfold compareAH declared
+  have hne : ((Action.shift j, Handle.term a) = (Action.reduce p, handleOfProd p)) = False := by simp
+  simp only [hne, if_false, isReduce, isShift, Bool.and_self]
+  cases e1 : precedenceOf ls (handleOfProd p) with
+  | none => cases precedenceOf ls (Handle.term a) <;> simp
+  | some r =>
+    obtain ⟨i, as⟩ := r
+    cases e2 : precedenceOf ls (Handle.term a) with
+    | none => simp
+    | some r' =>
+      obtain ⟨k, as'⟩ := r'
+      simp only
+      by_cases h1 : i < k
+      · have : ¬ k < i := by omega
+        simp [h1, this]
+      · by_cases h2 : k < i
+        · simp [h1, h2]
+        · have hik : i = k := by omega
+          subst hik
+          have has : as = as' := C11_same_level_same_assoc ls _ _ i as as' e1 e2
+          subst has
+          simp only [h1, if_false]
+          cases as <;> simp
+
+/-- `resolveConflict` on a shift/reduce cell follows the declared rule, whichever of the two actions the
+(shuffled) set iteration delivers first -/
+theorem C11_resolve_shift_reduce (ls : List Level) (p : Pr) (a : String) (j : Int) :
+    resolveConflict ls a [.reduce p, .shift j] = .ok (chosen (declared ls p a) p j) ∧
+    resolveConflict ls a [.shift j, .reduce p] = .ok (chosen (declared ls p a) p j) := by
+  have hself1 : compareAH ls (Action.reduce p, handleOfProd p) (Action.reduce p, handleOfProd p) = some 0 := by
+    simp [compareAH]
+  have hself2 : compareAH ls (Action.shift j, Handle.term a) (Action.shift j, Handle.term a) = some 0 := by
+    simp [compareAH]
+  have h1 := C11_compare_rule_swapped ls p a j
+  have h2 := C11_compare_rule ls p a j
+  cases hd : declared ls p a <;> rw [hd] at h1 h2 <;> simp only at h1 h2 <;>
+    constructor <;>
+    simp [resolveConflict, pairUp, handleOfAction, maxLoop, hself1, hself2, h1, h2, chosen]
+
+example : declared [⟨.left, [.term "*"]⟩, ⟨.left, [.term "+"]⟩]
+    ⟨"E", [.nonterm "E", .term "*", .nonterm "E"]⟩ "+" = .reduce := by decide
+example : declared [⟨.right, [.term "^"]⟩] ⟨"E", [.nonterm "E", .term "^", .nonterm "E"]⟩ "^" = .shift := by decide
+example : declared [⟨.none, [.term "<"]⟩] ⟨"E", [.nonterm "E", .term "<", .nonterm "E"]⟩ "<" = .error := by decide
+
+/-! ## 2. never panics -/
+
+/-- the resolution of a conflict never panics, for every level list, every non-empty cell and EVERY order in
+which the unordered action set is traversed (`acts` is that order).  Before the D18 patch this was false:
+`resolveConflict ls "$" [.accept, .reduce p]` dereferenced the nil handle of ACCEPT. -/
+theorem C11_resolve_never_panics (ls : List Level) (a : String) (acts : List Action) (hne : acts ≠ []) :
+    resolveConflict ls a acts ≠ Outcome.panic :=
+  resolveConflict_no_panic ls a acts hne
+
+example : resolveConflict [] endmarker [.accept, .reduce ⟨"S", []⟩] = .ok none := by decide
+
+/-- `ResolveConflicts` (all cells) never panics either, whatever the per-cell iteration orders are, as long as
+an order does not drop all actions of a cell -/
+theorem C11_resolveAll_never_panics (ls : List Level) (order : Int → String → List Action → List Action)
+    (hord : ∀ s a acts, acts ≠ [] → order s a acts ≠ []) (T : Table) :
+    resolveAll ls order T ≠ Outcome.panic := by
+  unfold resolveAll
+  split
+  · simp
+  · suffices h : ∀ (es : List ((Int × String) × List Action)) (acc : Table × Verdict),
+        resolveCells ls order es acc ≠ Outcome.panic from h _ _
+    intro es
+    induction es with
+    | nil => intro acc; simp [resolveCells]
+    | cons e es ih =>
+      intro acc
+      unfold resolveCells
+      split
+      · exact ih acc
+      · rename_i hlen
+        have hne : e.2 ≠ [] := by
+          intro h; rw [h] at hlen; simp at hlen
+        have := resolveConflict_no_panic ls e.1.2 (order e.1.1 e.1.2 e.2) (hord _ _ _ hne)
+        cases hr : resolveConflict ls e.1.2 (order e.1.1 e.1.2 e.2) with
+        | panic => exact absurd hr this
+        | diverge => simp
+        | ok o => cases o <;> simp <;> exact ih _
+
+/-
+Full statement (`C11_never_panics`): for every valid grammar `g` and every `fuel`,
+    `build k g fuel ≠ .panic`  for `k ∈ {slr, lalr, lr1}`,  and with enough fuel `≠ .diverge`.
+Proved below for SLR and canonical LR(1) (their Models have no panic point besides the exhaustion of the primed
+names `S′ … S⁗` in `augment`).  Missing: (a) LALR — `ComputeLALR1Kernels` indexes `S0[FindItemSet(GOTO(I,X))]` and
+dereferences `lookaheads.Get(item)`; both are safe only because the LR(0) kernel collection is closed under GOTO
+and every kernel item receives a lookahead, which needs the termination/completeness argument of the collection
+loop; (b) no-divergence: a bound on the fuel in terms of the number of items (finite item universe).
+Both are checked on every generated grammar by the correspondence run (a `panic`/`hang` line would differ from
+the implementation's or be objected to by the harness).
+-/
+theorem C11_never_panics_partial (g : SGrammar) (fuel : Nat) (h : augStart g ≠ none) :
+    buildSLR g fuel ≠ Outcome.panic ∧ buildLR1 g fuel ≠ Outcome.panic :=
+  ⟨np_buildSLR g fuel h, np_buildLR1 g fuel h⟩
+
+example : augStart { terms := ["a"], nonterms := ["S"], prods := [⟨"S", [.term "a"]⟩], start := "S" } ≠ none := by
+  decide
+
+/-! ## 3. soundness: `lr_stack_invariant` ⇒ `C11_sound` -/
+
+/-- `lr_stack_invariant`, restated: on a table whose actions are justified by the item sets `items`
+(`SoundTable`), whenever the frames of the stack form a chain of table transitions, every item `A → α•β` of the top
+state has `α` as the top `|α|` symbols of the stack, and `A → •αβ` lies in the state below them. -/
+theorem C11_lr_stack_invariant {g : SGrammar} {start' : String} {items : Int → List Item} {T : Tbl}
+    (hT : SoundTable g start' items T) (fr : List Frame) (it : Item)
+    (hch : Chain items fr) (hit : it ∈ items (topOf fr)) :
+    it.dot ≤ fr.length ∧ symsOf (fr.take it.dot) = it.prod.body.take it.dot ∧
+      ∃ j ∈ items (topOf (fr.drop it.dot)), j.prod = it.prod ∧ j.dot = 0 :=
+  lr_stack_invariant hT it.dot fr it hch hit rfl
+
+/-- `C11_sound` for the driver: on ANY table that passes the validator's soundness conditions — and on any table
+obtained from it by deleting actions, such as the table after `ResolveConflicts` — for EVERY token string `w`
+(not containing the endmarker) and every amount of fuel: if `Parse` accepts and emits `π`, then `π` reversed is a
+rightmost derivation of `w` from the start symbol, and the AST returned by `ParseAndBuildAST` has yield `w`. -/
+theorem C11_sound (g : SGrammar) (b : Built) (T : Table)
+    (hv : soundOK g b = true) (hw : Within b.table T)
+    (w : List String) (hend : endmarker ∉ w) (fuel : Nat) (π : List Pr) (root : Tree)
+    (h : parse T.toTbl fuel w = .ok (.accept π root)) :
+    RightmostDerivation g π.reverse w ∧ Language g w ∧ root.yield = w := by
+  have hs := parse_sound (soundTable_of_within g b T hv hw) w hend fuel π root h
+  refine ⟨hs.1, ?_, hs.2⟩
+  -- a rightmost derivation is a derivation
+  have aux : ∀ (π : List Pr) (α β : List Sy), RDeriv g π α β → Derives g α β := by
+    intro π α β hd
+    induction hd with
+    | nil α => exact Derives.refl α
+    | cons u v p hp _ ih => exact (Derives.single (Step.mk u (v.map Sym.term) p hp)).trans ih
+  exact aux _ _ _ hs.1
+
+/-- every table ANY of the three constructions of the Model returns — for EVERY well-formed grammar and every amount
+of fuel — passes the soundness validator: each kernel item of a transition's target comes from an item of its source
+(for LALR this is exactly what the same-core condition of the patched `findSuperset` provides), reduce/accept actions
+belong to complete items of their state, state 0 is the closure of `S′ → •S` and the only state holding it (an item of
+`S′` never receives a lookahead other than the endmarker), and the endmarker is never shifted. -/
+theorem C11_built_tables_valid (k : Kind) (g : SGrammar) (hv : ValidG g) (fuel : Nat) (b : Built)
+    (hb : build k g fuel = .ok b) : soundOK g b = true := by
+  cases k with
+  | slr => exact soundOK_buildSLR hv hb
+  | lalr => exact soundOK_buildLALR hv hb
+  | lr1 => exact soundOK_buildLR1 hv hb
+
+/-- `C11_sound`, unconditionally, for SLR(1), LALR(1) and canonical LR(1): for every well-formed grammar `g`, fuel,
+level list, iteration orders of the conflict resolution and token string `w` without the endmarker: whatever the
+driver accepts on the (resolved) table was derived — the emitted productions reversed are a rightmost derivation of
+`w`, `w ∈ L(g)`, and the AST's yield is `w`. -/
+theorem C11_sound_all (k : Kind) (g : SGrammar) (hv : ValidG g) (fuel : Nat) (b : Built)
+    (ls : List Level) (order : Int → String → List Action → List Action)
+    (hord : ∀ s a acts x, x ∈ order s a acts → x ∈ acts) (T : Table) (verdict : Verdict)
+    (hb : build k g fuel = .ok b) (hr : resolveAll ls order b.table = .ok (T, verdict))
+    (w : List String) (hend : endmarker ∉ w) (fuel' : Nat) (π : List Pr) (root : Tree)
+    (h : parse T.toTbl fuel' w = .ok (.accept π root)) :
+    RightmostDerivation g π.reverse w ∧ Language g w ∧ root.yield = w :=
+  C11_sound g b T (C11_built_tables_valid k g hv fuel b hb)
+    (resolveAll_within ls order b.table hord (T, verdict) hr) w hend fuel' π root h
+
+example : ValidG g17 := validG_sound (by decide)
+
+/-- the same with the validator's verdict as a hypothesis instead of `ValidG` (kept: it is the form the per-case
+`check` op of the driver instantiates, and it does not need the grammar to be well formed) -/
+theorem C11_sound_validated (k : Kind) (g : SGrammar) (fuel : Nat) (b : Built) (ls : List Level)
+    (order : Int → String → List Action → List Action) (hord : ∀ s a acts x, x ∈ order s a acts → x ∈ acts)
+    (T : Table) (verdict : Verdict)
+    (hb : build k g fuel = .ok b) (hv : soundOK g b = true)
+    (hr : resolveAll ls order b.table = .ok (T, verdict))
+    (w : List String) (hend : endmarker ∉ w) (fuel' : Nat) (π : List Pr) (root : Tree)
+    (h : parse T.toTbl fuel' w = .ok (.accept π root)) :
+    RightmostDerivation g π.reverse w ∧ Language g w ∧ root.yield = w := by
+  have _ := hb
+  exact C11_sound g b T hv (resolveAll_within ls order b.table hord (T, verdict) hr) w hend fuel' π root h
+
+/-- fuel is only a technicality: once `parse` returns with some fuel it returns the same with any larger fuel
+(so `hang` lines of the driver mean the Go loop would not return either) -/
+theorem C11_parse_fuel_monotone (T : Tbl) (w : List String) (n m : Nat) (r : PResult)
+    (h : parse T n w = .ok r) (hnm : n ≤ m) : parse T m w = .ok r := by
+  unfold parse at *
+  suffices aux : ∀ (n : Nat) (st : PState) (m : Nat), n ≤ m → prun T n st = .ok r → prun T m st = .ok r from
+    aux n _ m hnm h
+  intro n
+  induction n with
+  | zero => intro st m _ h; simp [prun] at h
+  | succ n ih =>
+    intro st m hm h
+    cases m with
+    | zero => omega
+    | succ m =>
+      unfold prun at h ⊢
+      cases hs : pstep T st with
+      | inl st' => rw [hs] at h; simp only; exact ih st' m (by omega) h
+      | inr r' => rw [hs] at h; simpa using h
+
+/-! ### the hypotheses are satisfiable, and the D17 witness is handled by the Model of the patched code -/
+
+set_option maxRecDepth 1000000 in
+/-- the three tables of the D17 grammar pass the validator (so `C11_sound_validated` applies to them) … -/
+theorem C11_D17_tables_validated :
+    validated .slr g17 = true ∧ validated .lalr g17 = true ∧ validated .lr1 g17 = true := by decide
+
+set_option maxRecDepth 1000000 in
+/-- … and the LALR table of the patched construction rejects `a` and `a a` (which the table built with the old
+`findSuperset` accepted) and accepts `a a a`, `a a a a`. -/
+theorem C11_D17_witness :
+    acceptsWith .lalr g17 ["a"] = some false ∧ acceptsWith .lalr g17 ["a", "a"] = some false ∧
+    acceptsWith .lalr g17 ["a", "a", "a"] = some true ∧ acceptsWith .lalr g17 ["a", "a", "a", "a"] = some true := by
+  decide
+
+set_option maxRecDepth 1000000 in
+example : (acceptTrace .lalr g17 ["a", "a", "a", "a"]).isSome = true := by decide
+
+/-- `C11_sound_validated` at work (all its hypotheses hold on a 6-state LALR table): whatever the Model's LALR parser
+emits for `a a a a` is a rightmost derivation of it, and the AST has that yield -/
+example (π : List Pr) (root : Tree) (h : acceptTrace .lalr g17 ["a", "a", "a", "a"] = some (π, root)) :
+    RightmostDerivation g17 π.reverse ["a", "a", "a", "a"] ∧ root.yield = ["a", "a", "a", "a"] := by
+  unfold acceptTrace at h
+  split at h
+  · rename_i b hb
+    split at h
+    · rename_i T v hr
+      split at h
+      · rename_i π' root' hp
+        simp only [Option.some.injEq, Prod.mk.injEq] at h
+        obtain ⟨rfl, rfl⟩ := h
+        have hv : soundOK g17 b = true := by
+          have := C11_D17_tables_validated.2.1
+          unfold validated at this
+          rw [hb] at this
+          exact this
+        have := C11_sound_validated .lalr g17 40 b [] _ (fun _ _ _ _ h => h) T v hb hv hr _ (by decide) 200 π' root' hp
+        exact ⟨this.1, this.2.2⟩
+      · simp at h
+    · simp at h
+  · simp at h
+
+/-
+## 4. stated, not proved
+
+Soundness ("accepts only L(G), with a valid derivation and AST") is proved above for all three constructions and all
+well-formed grammars.  The other half of "accepts exactly L(G)" and the remaining conjuncts are not:
+
+* Completeness: for a reduced grammar `g`, a conflict-free table `T` of any of the three constructions and every
+  `w`:  `Language g w → ∃ fuel π root, parse T.toTbl fuel w = .ok (.accept π root)`.
+  What it would rest on: the second group of validator conditions (`Spec.completeChecks`: item sets closed under
+  CLOSURE with exact FIRST, a transition for every symbol after a dot whose target holds the advanced item, a reduce
+  action for every complete item on each of its lookaheads), evaluated on every generated table, plus the
+  viable-prefix argument (every right-sentential form's handle-free prefix drives the automaton into a state with
+  a valid item), plus exactness of nullable/FIRST/FOLLOW (property C10).
+* Termination: for a conflict-free table of a reduced grammar `parse` with fuel `≥ c·(|w|+1)·n` never returns
+  `diverge` (no ε/unit reduce cycle is possible without a conflict); and the builders never run out of fuel
+  `defaultFuel g` (finite item universe).
+* `C11_never_panics` for LALR (see section 2).
+* Inclusion chain: `verdict (slr) = table → verdict (lalr) = table → verdict (lr1) = table`, and all conflict-free
+  tables accept the same strings (follows from soundness + completeness).
+* Grouping: on `E → E op E | id` with every operator listed in a LEFT/RIGHT level, the resolved parser's AST equals
+  `Spec.climb ls w` for every `w` (`C11_resolve_shift_reduce` is the per-cell content of it).
+All of these are checked as oracles on every generated case (exact bounded language, all strings up to the bound,
+the three constructions side by side, precedence-climbing reference), not proved.
+-/
